@@ -205,6 +205,11 @@ def check_robust(R, variant, yy, nodata, llas, p, ykind):
             tie_only = bool(np.all(dd <= 1) and np.all(fr[dd > 0] <= 1e-6))
             if tie_only:
                 R.count("cvi_rounding_ties")
+            elif variant == "ws2dwcvp" and W.asym(ycl, li, np.asarray(rw_t, dtype=float), p, S.ws2d_solver)["min_margin"] < 1e-9 * max(1.0, float(np.max(np.abs(ycl)))):
+                # an envelope decision y > z is taken on a residual at rounding-noise level (flat stretches are fitted
+                # exactly): the asymmetric weights of those cells are noise in both worlds (same class as in C03)
+                tie_only = True
+                R.count("cvi_irls_sign_degenerate")
             elif np.all(dd <= 3):
                 # last-ulp differences of the weights are amplified by the conditioning of (W_robust + lambda D'D) when long
                 # outages carry few weighted cells (C01 known-finding regime): excluded when kappa*eps*max|z| reaches 0.05
